@@ -521,19 +521,19 @@ def run_c10(ctx):
     ctx.traces += len(vecs)
     isbad = lambda r: not (r["ret"] == "ok" and "diff" not in r)
     bad = [i for i, (v, r) in enumerate(zip(vecs, results)) if isbad(r)]
-    # all layouts of one tree agree on everything but positions
+    # all layouts of one tree agree on everything but positions (those that already differ from the source are reported above)
     groups = {}
-    for i, (v, r) in enumerate(zip(vecs, results)):
-        if r["ret"] == "ok" and v.get("layoutFree", True):    # trees with fixed source forms change value with the layout
-            groups.setdefault((v["fam"], v["tid"]), {}).setdefault(r["shape"], []).append(i)
     badset = set(bad)
+    for i, (v, r) in enumerate(zip(vecs, results)):
+        if r["ret"] == "ok" and i not in badset and v.get("layoutFree", True):   # trees with fixed source forms change value with the layout
+            groups.setdefault((v["fam"], v["tid"]), {}).setdefault(r["shape"], []).append(i)
     layout_dis = []
     for k, shapes in groups.items():
         if len(shapes) > 1:
             major = max(shapes.values(), key=len)
             for sh, ids in shapes.items():
                 if ids is not major:
-                    layout_dis += [i for i in ids if i not in badset]
+                    layout_dis += ids
     if bad:
         ids = bad[:80]
         cp = ctx.path("confirm10.ndjson")
